@@ -3,6 +3,7 @@ CONSTANT EMIT = FALSE
 CONSTANT FIX_VISIBLE = TRUE
 CONSTANT FIX_TPL = TRUE
 CONSTANT FIX_LOGPANIC = TRUE
+CONSTANT FIX_RECFIRST = TRUE
 SPECIFICATION Spec
 INVARIANT OneCommit
 INVARIANT ErrorGetsBody
